@@ -210,7 +210,7 @@ UNIT = Unit(
             ("impl OsIpcReceiver", [receiver_from_fd]),
             ("impl OsOpaqueIpcChannel", [opaque_from_fd, opaque_to_sender, opaque_to_receiver]),
             (None, [cmsg_align, recv_message, recv])],
-    props=["C01", "C02", "C03", "C04", "C05", "C10", "C11", "C12", "C13", "C18"],
+    props=["C01", "C02", "C03", "C04", "C05", "C06", "C10", "C11", "C12", "C13", "C18"],
     prelude_clauses={
         "std.set_len/requires.le_capacity": ["C18", "C13"],
         "unix.UnixCmsg.recv/requires.header_iovec_is_usize": ["C18", "C01"],
